@@ -4,6 +4,8 @@ import json, os
 VERIF = os.path.dirname(os.path.dirname(os.path.abspath(__file__)))
 
 CLAIMED = {
+ "C07": ("fault_enumeration", "7 C07", "For sampled (history, schedule) pairs a fault-free dry run counts the storage operations of a target write batch; then one fault per simulated process life: validation rejections, error from the k-th put/delete/scan/bucket-open, commit failure, disk full and meta-write failure (bbolt's own gofail failpoints), process kill at the k-th storage operation / before commit / between data and meta sync / after commit. Quick samples 5 faults per history; thorough additionally enumerates every kind x every k of the batch for a third of the histories (exhaustive for that batch). Oracle: failed call => warm answers, cold answers on a file copy and the logical file digest equal the pre-batch state and the rest of the history still behaves; success => post-batch state; kill => the reopened file is exactly the pre- or post-batch state as the crash point dictates; any panic in any goroutine or use of a storage handle after its transaction ended is a violation.",
+         "deterministic simulation + storage fault / crash-point enumeration (storage proxy, bbolt gofail failpoints), pre/post-state refinement oracle"),
  "C01": ("exploration", "7 C01", "Seeded histories of insert/update/delete/reopen/evict batches on a real shard (bbolt or memory backend) under seeded schedules of its internal pipeline goroutines; after every batch the complete stored state (id set, every document, point count) and every call's return values are compared with an independent reference model. Evidence, not proof: sampling of histories x schedules.",
          "deterministic simulation: seeded scheduler + reference model (refinement check after every operation)"),
 }
@@ -48,7 +50,7 @@ def main():
         "engines": [{"name": "semasim", "path": "check", "serves_properties": sorted(CLAIMED), "kind_free_text": "deterministic simulation with fault injection: seeded cooperative scheduler over testing/synctest, storage proxy over real bbolt with gofail failpoints, in-memory RPC transport, reference models"}],
         "checks": checks,
         "not_applicable": sorted(na, key=lambda x: x["property_id"]),
-        "notes": "See DESIGN.md. Replay files under replays/. Known findings in known_findings.jsonl.",
+        "notes": "See DESIGN.md. Replay files under replays/. Known findings in known_findings.txt.",
     }
     with open(os.path.join(VERIF, "MANIFEST.json"), "w") as f:
         json.dump(m, f, indent=1)
